@@ -93,6 +93,13 @@ func replayC45(t *testing.T, rec *ev.Rec, w json.RawMessage) {
 	if err := json.Unmarshal(w, &x); err != nil {
 		t.Fatalf("replay: %v", err)
 	}
+	if x.Message != nil && x.Kind == "sessionState-sealed" {
+		other := &hs{Kind: "sessionState", MasterSecret: patternBytes(len(x.Message.MasterSecret)+8, 0xEE)}
+		if diff, pan := ticketRetention(x.Message, []*hs{other, other}); pan != nil || diff != "" {
+			rec.Fail(t, "sessionstate-aliases-shared-buffer", map[string]any{"kind": x.Kind, "message": x.Message}, "replay: %s %v", diff, pan)
+		}
+		return
+	}
 	if x.Message != nil {
 		c45Structured(t, rec, x.Message, true)
 		return
